@@ -137,6 +137,14 @@ class ExprMixin(Core):
         for key in src.functions:
             if key.endswith(":" + n):
                 return Fn(key)
+        # a name imported from a module outside the package: an external function (modelled by a bi_<module>_<name> entry)
+        tree0 = src.tree.get(mod)
+        if tree0 is not None:
+            for item in tree0.body:
+                if isinstance(item, ast.ImportFrom) and item.level == 0 and item.module and not item.module.startswith("jsonpath_rfc9535"):
+                    for al in item.names:
+                        if (al.asname or al.name) == n and item.module not in ("typing", "__future__"):
+                            return Builtin(f"{item.module}.{al.name}")
         # nested function of the current function
         if f"{self.fn_key}.<locals>.{n}" in src.functions:
             return Fn(f"{self.fn_key}.<locals>.{n}")
@@ -542,6 +550,8 @@ class ExprMixin(Core):
         if isinstance(v, Mod):
             if v.name == "function_extensions" and attr in src.classes:
                 return self.ok(Cls(attr), st)
+            if f"{v.name}.{attr}" in U.exc_id:
+                return self.ok(Cls(f"{v.name}.{attr}"), st)
             return self.ok(Builtin(f"{v.name}.{attr}"), st)
         if isinstance(v, SuperProxy):
             return self.ok(BM(v.recv, attr, static_cls=v.after), st)
